@@ -148,6 +148,31 @@ impl C03 {
     fn text_for(&self, family: &str, bytes: &[u8]) -> Option<(String, Option<usize>)> {
         // returns (text, injected error line if a definite syntax error was injected)
         match family {
+            "limit_programs" => {
+                // the programs of C04's limit family that are not huge (parameter, argument, element,
+                // local and capture counts at and around their limits): whole, cut in half, and cut a
+                // few characters before the end - long lists are where narrowing conversions live
+                let idx = {
+                    let mut b = [0u8; 8];
+                    let n = bytes.len().min(8);
+                    b[..n].copy_from_slice(&bytes[..n]);
+                    u64::from_le_bytes(b) as usize
+                };
+                let progs = small_limit_programs();
+                if progs.is_empty() {
+                    return None;
+                }
+                let src = &progs[(idx / 3) % progs.len()];
+                let mut cut = match idx % 3 {
+                    0 => src.len(),
+                    1 => src.len() / 2,
+                    _ => src.len().saturating_sub(12),
+                };
+                while !src.is_char_boundary(cut) {
+                    cut -= 1;
+                }
+                Some((src[..cut].to_string(), None))
+            }
             "prefix" | "prefix_stride" => {
                 let idx = {
                     let mut b = [0u8; 8];
@@ -325,6 +350,11 @@ pub fn count_tokens_before_error(text: &str, first_error_line: usize) -> usize {
     n
 }
 
+fn small_limit_programs() -> &'static Vec<String> {
+    static CELL: std::sync::OnceLock<Vec<String>> = std::sync::OnceLock::new();
+    CELL.get_or_init(|| crate::props::c04::limits().into_iter().map(|l| l.source).filter(|s| s.len() < 20_000).collect())
+}
+
 impl Property for C03 {
     fn id(&self) -> &'static str {
         "C03"
@@ -341,6 +371,7 @@ impl Property for C03 {
                 Family { name: "nesting", kind: FamilyKind::Random { cases: 400, max_len: 8 } },
                 Family { name: "raw", kind: FamilyKind::Random { cases: 8000, max_len: 64 } },
                 Family { name: "lexeme_edges", kind: FamilyKind::Enumerated { count: lexeme_edge_count(), exhaustive: true } },
+                Family { name: "limit_programs", kind: FamilyKind::Enumerated { count: 3 * small_limit_programs().len() as u64, exhaustive: true } },
             ],
             Tier::Thorough => vec![
                 Family { name: "prefix", kind: FamilyKind::Enumerated { count: total, exhaustive: true } },
@@ -350,12 +381,13 @@ impl Property for C03 {
                 Family { name: "nesting", kind: FamilyKind::Random { cases: 4000, max_len: 8 } },
                 Family { name: "raw", kind: FamilyKind::Random { cases: 50_000, max_len: 64 } },
                 Family { name: "lexeme_edges", kind: FamilyKind::Enumerated { count: lexeme_edge_count(), exhaustive: true } },
+                Family { name: "limit_programs", kind: FamilyKind::Enumerated { count: 3 * small_limit_programs().len() as u64, exhaustive: true } },
             ],
         }
     }
 
     fn rule(&self) -> String {
-        "cases: char-boundary prefixes of the repository scripts (every 8th, seed-rotated, in quick; all in thorough), token- and character-level mutations of the scripts, token soup over the full vocabulary, nested constructs up to depth 1000, raw bytes as lossy UTF-8, and (lexeme_edges, exhaustive) every keyword prefix (also extended by one identifier character), number form, string/escape/interpolation start and operator directly followed by the end of the text or by one character of each UTF-8 width, in five statement contexts. Oracle: compile() returns without panic; Ok or Err(CompileError) with >=1 message, every message '[module \"main\", line N] Error…: …' with 1<=N<=lines+1; compiling twice gives the same verdict (accept / reject); an accepted function runs under instruction fuel without panic. Non-trivial: >=5 tokens precede the first reported error line, or the text is accepted and has >=1 statement token; distinct by hash of the text.".into()
+        "cases: (limit_programs) the programs of C04's limit family below 20 KB - parameter, argument, element, local and capture counts at and around their limits - whole, cut in half and cut a few characters before the end; char-boundary prefixes of the repository scripts (every 8th, seed-rotated, in quick; all in thorough), token- and character-level mutations of the scripts, token soup over the full vocabulary, nested constructs up to depth 1000, raw bytes as lossy UTF-8, and (lexeme_edges, exhaustive) every keyword prefix (also extended by one identifier character), number form, string/escape/interpolation start and operator directly followed by the end of the text or by one character of each UTF-8 width, in five statement contexts. Oracle: compile() returns without panic; Ok or Err(CompileError) with >=1 message, every message '[module \"main\", line N] Error…: …' with 1<=N<=lines+1; compiling twice gives the same verdict (accept / reject); an accepted function runs under instruction fuel without panic. Non-trivial: >=5 tokens precede the first reported error line, or the text is accepted and has >=1 statement token; distinct by hash of the text.".into()
     }
 
     fn assumptions(&self) -> Vec<String> {
